@@ -622,6 +622,19 @@ def make_cornerstone(seed, tier, k, prop="C06"):
             intents.append({"step": len(g.ops) - 1, "kinds": rng.sample(["dep", "abort", "oom"], 3), "u": fhex(rng.random() ** 2),
                             "mode": "before", "exc": rng.choice(["RuntimeError", "ValueError"])})
     g.call_op(0, a, pa, ta, la)
+    if variant in ("plain", "two_times") and fam.gran not in ("mesh", "mader") and not getattr(fam.pool[a.pi].pts, "fixed_n", False):
+        # the same points with one non-finite coordinate among them: the one input no comparison mask catches, so whatever
+        # a solver leaves unwritten for it shows under a dirty allocation pattern
+        np_ = world.np
+        if la == "2N":
+            bad_pts = np_.concatenate([pa, np_.array([[float("nan")], [pa[1, 0]]])], axis=1)
+        elif pa.ndim == 1:
+            bad_pts = np_.concatenate([pa, [float("nan")]])
+        else:
+            row = pa[0].copy()
+            row[0] = float("nan")
+            bad_pts = np_.concatenate([pa, [row]], axis=0)
+        g.call_op(0, a, bad_pts, ta, la, cont="nd")
     if variant == "two_times":
         ps_a = fam.pool[a.pi]
         other = [t for t in ps_a.times if fhex(t) != ta]
